@@ -50,12 +50,12 @@ func (Engine) Budget(tier, prop string) (int, int) {
 func (Engine) Describe() simcore.Description {
 	return simcore.Description{
 		Real: []string{"full OsmosisApp: x/superfluid keeper, msg server and governance handler, x/lockup (synthetic locks, end-blocker at heights divisible by 120), x/staking and x/distribution of the SDK fork, bank with supply offsets, x/gamm balancer pool, x/concentrated-liquidity full-range positions, x/epochs, x/incentives gauges, real BeginBlocker/EndBlocker of every module, IAVL commit per block, SDK gas metering"},
-		Stub: []string{"CometBFT (the simulator supplies header time/height and message order; no votes, so no downtime slashing)", "ante/post handlers (sender taken as authenticated, no fees)", "governance voting (superfluid assets are enabled by calling the proposal handler directly)"},
+		Stub: []string{"CometBFT (the simulator supplies header time/height and message order; no votes, so no downtime slashing: slashing and jailing are injected through the staking keeper as faults)", "ante/post handlers (sender taken as authenticated, no fees)", "governance voting (superfluid assets are enabled by calling the proposal handler directly)"},
 		Rule: "one run = 2-3 validators, 2-4 owners, a uosmo/uion balancer pool and (3 of 4 runs) a uosmo/uion concentrated pool, both enabled as superfluid assets through the governance handler; risk factor, staking unbonding time, epoch length, pool depth and price drawn per run; steps are lock / add-to-lock / superfluid-delegate / lock-and-delegate / undelegate / unbond-lock / undelegate-and-unbond (full, partial) / full-range create-and-delegate / add to a delegated full-range position / begin-unlocking (on delegated, undelegating and plain locks) / withdraw-position on locked positions / price-moving swaps / clock advances (small, to the next epoch, several epochs, across unbonding time, to a marker's end +-1s) / empty-block bursts to the next height divisible by 120 / node restarts, with seeded out-of-gas and forced roll-back on every message kind; after every message, block and epoch refresh the stake of every (denomination, validator) intermediary account, all synthetic locks, all lock-to-account connections, every lock record, owners' share balances and the bond-denom supply-with-offset are compared with a lock-table reference.; a governance step takes a share denomination off the superfluid asset list (the next refresh then unstakes everything staked for it) or lists it again (between such a change and the next refresh nothing is demanded of that denomination's stake)",
 		Assumptions: []string{
 			"'matches exactly after the epoch refresh' is read as: the integer stake is one of the two integers adjacent to the exact rational value sum(lock amounts) x published multiplier x (1 - MinimumRiskFactor); neither the property nor the README fixes a rounding direction (the README's 'below 1 uosmo is rounded to 0' clause is not enforced)",
 			"the reference value uses the multiplier published by the AssetMultiplier store after the latest refresh and the sum of the amounts of the locks connected to the account (one rounding per account, as the README's invariant section says)",
-			"no validator is slashed or jailed in this engine, so delegation shares convert to tokens 1:1 (the oracle still converts through the validator's public exchange rate)",
+			"validators are slashed and jailed only as injected faults; until the first slash of a run delegation shares convert to tokens 1:1 (the oracle always converts through the validator's public exchange rate). After a slash the between-refresh stake oracles are off for the rest of the run and the after-refresh oracle of classic denominations is 4 base units wide (share/token conversions truncate in both directions at an exchange rate below one); lock amounts follow the chain's cut",
 			"maturity instants exactly equal to the block time are not tested (the engine resynchronises from the chain at equality)",
 			"the between-refresh tolerance is taken literally from the property (one base unit per lock currently connected, oracle stake-within-one-unit-per-lock); a second, wider oracle (stake-tracks-locks: one unit per connected lock or per lock operation since the refresh, whichever is larger; every operation rounds once by less than a unit) keeps watching when the literal one is listed as a known finding",
 			"liveness of undelegation/delegation messages is not part of C11: natural failures are followed, not judged; only BeginUnlocking on a delegated lock and WithdrawPosition on a position whose lock has not matured are required to fail",
